@@ -108,6 +108,22 @@ def build_gtld_updater(ctx):
     return exe
 
 
+def api_census(ctx):
+    """Exported identifiers of the library packages of /repo's working tree (go doc -short) against the pinned record
+    spec/pinned_api.json: what was added is an entry point no driver knows (reported as drift, never a verdict)."""
+    now = {}
+    for pkg in ('./util', './lint', '.'):
+        rc, out = sh(['go', 'doc', '-short', pkg], cwd=os.path.join(REPO, 'v3'), timeout=300)
+        now[pkg] = sorted({re.sub(r'\s+', ' ', l.strip()) for l in out.splitlines() if re.match(r'\s*(func|type|var|const) ', l)})
+    pin_path = os.path.join(VERIF, 'spec', 'pinned_api.json')
+    if os.environ.get('VERIF_PIN_API'):
+        json.dump(now, open(pin_path, 'w'), indent=0, sort_keys=True)
+    pin = json.load(open(pin_path))
+    added = [(p, x) for p in now for x in now[p] if x not in pin.get(p, [])]
+    removed = [(p, x) for p in pin for x in pin[p] if x not in now.get(p, [])]
+    return added, removed
+
+
 def suite_traces(ctx):
     """The repository's own test suite as a trace source: `go test -tags verif ./...` on /repo's working tree with a recorder
     overlaid into package lint (harness/suite/recorder.go.txt, behind the guarded hook verifObserve; nothing is written to /repo).
